@@ -604,8 +604,13 @@ def r3_check_then_commit(rep, src, A):
     # character -- assigned to every component of objects with and without epoch / revision ends either in a valid version whose
     # components are the parse of its string, or in ValueError with the object exactly as it was
     ref = rx.regex_lang('(?:%s|%s)' % (REF_WITH_EPOCH, REF_NO_EPOCH), 0, 'fullmatch', alpha=A['alpha'])
+    import re as _re
+    _ref_re = _re.compile('(?:%s|%s)' % (REF_WITH_EPOCH, REF_NO_EPOCH))
+
+    def ref_accepts(text_):
+        return _ref_re.fullmatch(text_) is not None          # (the grammar as a pattern of its own: any character may occur in a candidate)
     starts = [('1', '2.0', '3', '1:2.0-3'), (None, '2.0', '3', '2.0-3'), ('1', '2.0', None, '1:2.0'), (None, '2.0', None, '2.0'), (None, '2-0', '3', '2-0-3')]
-    values = [None, '', '7', 'a.b+c~d', '-', '7-', '2:3', ':', ' ', '7 ', 0]
+    values = [None, '', '7', 'a.b+c~d', '-', '7-', '2:3', ':', ' ', '7 ', 0, '\u0661', '\u00b2', '7\n', '\uff11.0']          # (digits outside ASCII count as digits for str.isdigit and \d, not for the grammar)
     bad2 = None
     n2 = 0
     # (the object is built by the class's own validated assignment and looked at through its own attribute interface -- __getattr__ --,
@@ -655,7 +660,7 @@ def r3_check_then_commit(rep, src, A):
                     ('%s:' % parts['epoch'] if parts['epoch'] is not None else '') + parts['upstream_version']
                     + ('-%s' % parts['debian_revision'] if parts['debian_revision'] is not None else ''))
                 fv_ = after.get('_BaseVersion__full_version')
-                if expected is not None and ref.accepts(expected):
+                if expected is not None and ref_accepts(expected):
                     if out != 'ok' or fv_ != expected:
                         bad2 = bad2 or '%s must give the version %r; it %s' % (what, expected, 'raises %s' % out if out != 'ok' else 'gives %r' % (fv_,))
                 elif out == 'ok':
@@ -665,7 +670,7 @@ def r3_check_then_commit(rep, src, A):
                     fv = after.get('_BaseVersion__full_version')
                     e2, u2, r2 = after.get('_BaseVersion__epoch'), after.get('_BaseVersion__upstream_version'), after.get('_BaseVersion__debian_revision')
                     recomposed = ('%s:' % e2 if e2 is not None else '') + (u2 if isinstance(u2, str) else repr(u2)) + ('-%s' % r2 if r2 is not None else '')
-                    if not isinstance(fv, str) or not ref.accepts(fv):
+                    if not isinstance(fv, str) or not ref_accepts(fv):
                         bad2 = bad2 or '%s is accepted and gives the invalid version %r (epoch %r, upstream %r, revision %r)' % (what, fv, e2, u2, r2)
                     elif fv != recomposed:
                         bad2 = bad2 or '%s gives the string %r but the components epoch %r, upstream %r, revision %r' % (what, fv, e2, u2, r2)
